@@ -58,15 +58,37 @@ def templates():
     return _TEMPLATES
 
 
+_REACH = None
+
+
+def reach_templates():
+    """Every dispatch variant once: one world per (backend, stored system of self)."""
+    global _REACH
+    if _REACH is None:
+        _REACH = [("reach", be, si) for be in ("np", "ak", "obj") for si in range(20)]
+    return _REACH
+
+
+def _unused_templates():
+    if True:
+        pass
+    return _TEMPLATES
+
+
 def gen_case(seed, tier, focus):
     idx = seed % 100000
     base = seed // 100000
-    tpl = templates()
-    t = tpl[idx % len(tpl)]
+    if idx >= 90000:
+        tpl = reach_templates()
+        t = tpl[(idx - 90000) % len(tpl)]
+    else:
+        tpl = templates()
+        t = tpl[idx % len(tpl)]
     rng = random.Random((base << 20) ^ idx)
     g = G.WorldGen(rng.randrange(1 << 30), tier, focus or "C20")
     g.rng = rng
-    fn = {"raise": _raise_case, "rendezvous": _rendezvous_case, "register": _register_case, "mutators": _mutator_case}[t[0]]
+    fn = {"raise": _raise_case, "rendezvous": _rendezvous_case, "register": _register_case, "mutators": _mutator_case,
+          "reach": _reach_case}[t[0]]
     w = fn(g, rng, t)
     w["seed"] = seed
     w["directed"] = list(map(str, t))
@@ -245,3 +267,89 @@ def _mutator_case(g, rng, t):
     faults = g.build_faults(dict(k, faults=variant % 2 == 0, fault_kinds=["lib"]), progs)
     sched = {"kind": rng.choice(("walk", "sites")), "seed": rng.randrange(1 << 30), "p": 0.3, "which": ["with", "store", "func"], "domain": "line", "observe": 4}
     return _finish(g, k, progs, faults, sched, niso=1)
+
+
+def _mk_like(g, k, be, sys_, mom, n=3):
+    """An operand of backend `be` stored in `sys_`."""
+    rng = g.rng
+    d = C.dim_of(sys_)
+    if be == "obj":
+        return g.add({"f": "vector.obj", "k": g.coord_kwargs(sys_, mom, kinds=("float",))}, be="obj", dim=d, mom=mom, sys=sys_)
+    names, cols = g._cols(sys_, mom, [n])
+    if be == "np":
+        lit = g.add({"f": "vecsim.lit", "a": [{nm: {"$": "arr", "v": cols[nm], "dtype": "f8"} for nm in names}]}, be="other")
+        return g.add({"f": "vector.array", "a": [P(lit)]}, be="np", dim=d, mom=mom, sys=sys_, shape=[n], src=lit)
+    recs = [{nm: cols[nm][i] for nm in names} for i in range(n)]
+    if rng.random() < 0.5:
+        recs = [recs[:2], [], recs[2:]]
+        return g.add({"f": "vector.Array", "a": [recs]}, be="ak", dim=d, mom=mom, sys=sys_, shape=[3, None], lay="jagged")
+    return g.add({"f": "vector.Array", "a": [recs]}, be="ak", dim=d, mom=mom, sys=sys_, shape=[n], lay="flat")
+
+
+def _reach_case(g, rng, t):
+    _, be, si = t
+    k = _base_knobs(g, 1)
+    k["awk_mode"] = rng.choice(("unregistered", "registered_before"))
+    k["errstate"] = [rng.choice(({"all": "raise"}, {"all": "warn"}, None))]
+    sys_ = C.SYSTEMS[si]
+    dim = C.dim_of(sys_)
+    mom = rng.random() < 0.5 or dim == 4   # Et/Mt (and squares) exist on momentum vectors only
+    me = _mk_like(g, k, be, sys_, mom)
+    partners = {d: [] for d in (2, 3, 4)}
+    for s2 in C.SYSTEMS:
+        d2 = C.dim_of(s2)
+        if d2 == dim or (d2 == 3 and dim >= 3) or (d2 == 4 and dim == 4):
+            pbe = be if rng.random() < 0.8 else "obj"
+            partners[d2].append(_mk_like(g, k, pbe, s2, rng.random() < 0.5))
+    ops_ = []
+
+    def add(op):
+        op["cat"] = "reach"
+        ops_.append(op)
+
+    for d in range(2, dim + 1):
+        for n in G.PROPS[d] + (G.MOMPROPS[d] if mom else []):
+            add({"f": "." + n, "a": [P(me)], "attr": 1})
+    for n in G.to_methods():
+        add({"f": "." + n, "a": [P(me)]})
+    for n, (mind, spec) in G.METHODS.items():
+        if mind > dim:
+            continue
+        kinds = [a.lstrip("?") for a in spec]
+        if kinds and kinds[0] in ("vsame", "vany", "v3", "v3b", "v4", "v34", "v34b"):
+            want = {"vsame": [dim], "vany": [dim], "v3": [3], "v3b": [3], "v4": [4], "v34": [3, 4] if dim == 4 else [3], "v34b": [3, 4]}[kinds[0]]
+            for d2 in want:
+                for pj in partners.get(d2, []):
+                    op = g.method_call(me, n)
+                    op["a"][1] = P(pj)
+                    add(op)
+        elif n == "rotate_euler":
+            for order in G.EULER_ORDERS + ["yxz", "xzy", "zxy"]:
+                add({"f": ".rotate_euler", "a": [P(me), 0.3, -0.7, 1.1], "k": {"order": order}})
+        elif kinds and kinds[0] in ("fac",):
+            for f in (2.0, -1.5, 0.0):
+                add({"f": "." + n, "a": [P(me), f]})
+        elif kinds and kinds[0] == "kwbeta":
+            add({"f": "." + n, "a": [P(me)], "k": {"beta": 0.4}})
+            add({"f": "." + n, "a": [P(me)], "k": {"gamma": -1.5}})
+        else:
+            add(g.method_call(me, n))
+    for u in G.UFUNCS1:
+        add({"f": "numpy." + u, "a": [P(me)]})
+    for pj in partners[dim][:4]:
+        for u in ("add", "subtract", "matmul", "equal", "not_equal"):
+            add({"f": "numpy." + u, "a": [P(me), P(pj)]})
+    for f in (2.0, -3.0):
+        add({"f": "numpy.multiply", "a": [P(me), f]})
+        add({"f": "numpy.true_divide", "a": [P(me), f]})
+        add({"f": "numpy.power", "a": [P(me), abs(f) + 1]})
+    if be == "np":
+        for fnm in ("sum", "count_nonzero"):
+            add({"f": "numpy." + fnm, "a": [P(me)]})
+    if be == "ak":
+        for fnm in ("sum", "count", "count_nonzero"):
+            add({"f": "awkward." + fnm, "a": [P(me)], "k": {"axis": -1 if g.desc[me].lay == "jagged" else 0}})
+    add({"f": "builtins.repr", "a": [P(me)]})
+    add({"f": "copy.deepcopy", "a": [P(me)]})
+    w = _finish(g, k, [ops_], [], {"kind": "serial", "seed": 0}, niso=0, serial_only=True, reach=True)
+    return w
